@@ -6,10 +6,11 @@ tie:   T-cor – the extracted model is run against the real momo::HashSet/HashM
 oracle: std::set twin + kit protocol/leak summary inside the harness (independent of the model)."""
 import os, re
 
-KINDS = {0: ['L1', 'L2', 'L3', 'L4', 'L4d'], 1: ['O1', 'O2', 'O3', 'O8'], 2: ['N1'], 3: ['P2', 'P3', 'P8']}
+KINDS = {0: ['L1', 'L2', 'L3', 'L4', 'L4d'], 1: ['O1', 'O2', 'O3', 'O8'], 2: ['N1', 'L4i', 'O3i', 'O8i'], 3: ['P2', 'P3', 'P8']}
 TU_OF = {k: tu for tu, ks in KINDS.items() for k in ks}
 TU_NAME = {0: 'limp4', 1: 'open', 2: 'one', 3: 'limp'}
 TUS = (0, 1, 2, 3)
+MAP_KINDS = ('L4', 'L1', 'O3', 'P3', 'N1')
 
 
 def arm(r, slow, inten):
@@ -51,6 +52,8 @@ def gen_cases(ctx, scale):
     r = ctx.rng
     cases = []   # (tu, 'kind keycat dist logStart sm | ops')
     def add(kind, keycat, dist, ls, sm, ops):
+        if kind not in MAP_KINDS or keycat == 'T':
+            sm = 'S'             # HashMap is instantiated for one kind per harness TU
         if kind in ('O1', 'L1', 'N1'):
             ls = max(ls, 1)      # CalcCapacity(1 bucket of capacity 1) = 0 is not a usable start size
         cases.append((TU_OF[kind], '%s %s %d %d %s | %s' % (kind, keycat, dist, ls, sm, ' '.join(ops))))
@@ -155,6 +158,54 @@ def gen_cases(ctx, scale):
         add('O2', 'F', 1, 4, 'S', ['v800', 'b560', 'q7100', 'q7559', 'r7500', 'q7559', 't'])
         add('O8', 'F', 1, 4, 'S', ['v3000', 'b2100', 'q7100', 'q9099', 'r9000', 'q9099', 't'])
         add('L1', 'F', 1, 4, 'S', ['v300', 'b280', 'q7100', 'q7279', 'r7250', 'q7279', 't'])
+    # 9. table filled to the last slot under persistent refusal, ONE free slot, insertion from EVERY start bucket (the free
+    #    slot is at every position of the probe path, in particular the last one), linear and triangular probing
+    for kind in ['O3', 'L4', 'O1', 'L1', 'O8', 'L2', 'P3', 'N1', 'O2', 'L3']:
+        for ls in ([1, 2, 3] if scale == 1 else [1, 2, 3, 4]):
+            bc = 2 ** ls
+            capk = {'O3': 3, 'L4': 4, 'O1': 1, 'L1': 1, 'O8': 7, 'L2': 2, 'P3': 3, 'N1': 1, 'O2': 2, 'L3': 3}[kind]
+            keycat = r.choice(['F', 'T', 'S'])
+            ops = ['i0'] + ['i%da0' % k for k in range(1, capk * bc + 3)]          # brim-full (the surplus answers "full")
+            prev = 0
+            for st in range(bc):
+                key = 1000 * bc + st                                              # IDENT hash: start bucket = st
+                ops += ['r%d' % prev, 'i%da0' % key, 'i%da0' % (key + 500 * bc)]  # fills the hole; the next one finds no slot
+                prev = key
+            ops += ['t', 'i%d' % (3000 * bc), 'i%d' % (3000 * bc + 1), 't']       # allocation granted again: grows, migrates
+            add(kind, keycat, 0, ls, 'S', ops)
+    # 10. slow-hash keys in buckets that KEEP hash bits (LimP4, Open2N2, LimP): items colliding in the low bits and differing
+    #     in the bits the next table uses, removal at EVERY position of a 2..maxCount-item bucket, then growth inside the same
+    #     8-doubling band (hash rebuilt from the stored bytes) -- completed, or interrupted by a throwing hash / refused array
+    for kind in ['L4', 'L3', 'L4d', 'L2', 'O3', 'O2', 'P3', 'P8'] * (1 if scale == 1 else 3):
+        capk = {'L4': 4, 'L3': 3, 'L4d': 4, 'L2': 2, 'O3': 3, 'O2': 2, 'P3': 3, 'P8': 8}[kind]
+        for ls in (2, 3, 4):
+            bc = 2 ** ls
+            for cnt in range(2, capk + 1):
+                for pos in range(cnt):
+                    if scale == 1 and r.chance(1, 2) and not (cnt == 3 and pos == 0):
+                        continue
+                    b = r.below(bc)
+                    grp = [b + bc * j for j in r.choice([[0, 4, 1, 2, 3, 5, 6, 7], [0, 16, 1, 3, 2, 5, 9, 6], [3, 1, 2, 0, 7, 4, 5, 6]])][:cnt]
+                    ops = ['i%d' % k for k in grp]
+                    ops.append('r%d' % grp[pos])
+                    # fillers: other buckets only, two per bucket, until the capacity is reached; then growth
+                    fill = [bb + bc * (8 + j) for j in range(capk) for bb in range(bc) if bb != b]
+                    tailarm = r.choice(['', '', 'f1', 'f2', 'f3', 'a1', 'a2'])
+                    ops += ['i%d' % k for k in fill[:2 * bc + 2]]
+                    ops += ['i%d%s' % (900 * bc + j, tailarm) for j in range(4)]
+                    ops += ['t', 'r%d' % grp[(pos + 1) % cnt]] + ['i%d' % (950 * bc + j) for j in range(2 * bc)] + ['t']
+                    add(kind, 'S', 0, ls, 'S', ops)
+    # 12. inline crew (stateless manager kit::MM0, checkVersion = false): the container object itself holds traits and manager
+    for i in range(12 * scale):
+        kind = r.choice(['L4i', 'O3i', 'O8i'])
+        keycat = r.choice(['F', 'S', 'S'])
+        add(kind, keycat, r.choice([0, 4, 2, 5]), r.choice([0, 1, 2, 4]), 'S', gen_history(r, keycat != 'F', r.range(20, 90), r.choice([30, 80]), r.choice([30, 60, 100])))
+    # 11. Reserve boundary values around the capacities of the first table sizes (0, 1, cap-1, cap, cap+1) between insertions
+    for kind in ['L4', 'O3', 'O8', 'L1', 'N1', 'P3']:
+        ops = ['v0', 'i0', 'v0', 'v1', 'i1', 'i2']
+        for n in [2, 3, 4, 5, 6, 7, 10, 11, 12, 13, 14, 21, 22, 23, 24, 26, 27, 31, 32, 33, 44, 45, 63, 64, 65]:
+            ops += ['v%d%s' % (n, r.choice(['', '', 'a0', 'f1'])), 'i%d' % (100 + n)]
+        add(kind, r.choice(['F', 'S', 'T']), r.choice([0, 4]), r.choice([0, 1, 2]), 'S', ops)
     return cases
 
 
@@ -185,7 +236,54 @@ def run_tu(ctx, harness, tu, lines, tag):
     return kept, outs, crashes
 
 
-STAT_KEYS = ['g2', 'g3', 'fb', 'refused', 'full', 'migfail', 'afail', 'extra', 'chk']
+STAT_KEYS = ['g2', 'g3', 'fb', 'refused', 'full', 'migfail', 'afail', 'extra', 'chk', 'grows', 'growsx', 'brim1', 'bandsame', 'bandcross']
+
+
+def bump(d, group, key, n=1):
+    g = d.setdefault(group, {}); g[key] = g.get(key, 0) + n
+
+
+def measure(stats, case, header, st):
+    """per-dimension counts of what REALLY ran (from the case line and the facts/statistics printed by the real code)"""
+    D = stats.setdefault('_dist', {})
+    w = case.split()
+    kind, keycat, dist, ls, sm = w[0], w[1], w[2], w[3], w[4]
+    hd = header.split()
+    bump(D, 'bucket_kind', kind); bump(D, 'key_category', keycat); bump(D, 'hash_distribution', dist)
+    bump(D, 'log2_start_buckets', ls); bump(D, 'container', 'HashMap' if sm == 'M' else 'HashSet')
+    bump(D, 'kind_x_keycat', kind + '/' + keycat)
+    bump(D, 'bucket_maxCount(real)', '%s/%s=%s' % (kind, keycat, hd[0]))
+    bump(D, 'areItemsNothrowRelocatable(real)', hd[2]); bump(D, 'WasFull_of_fresh_bucket(real)', hd[1]); bump(D, 'LimP_skipOddMemPools(real)', hd[3])
+    bump(D, 'bucket_keeps_hash_bits(real)', st.get('part', '?')); bump(D, 'inline_crew(real)', st.get('inlinecrew', '?'))
+    bump(D, 'sizeof_item(real)', st.get('itemsize', '?'))
+    bump(D, 'max_log2_buckets_reached', st.get('maxlog', '?'))
+    bump(D, 'max_coexisting_generations', st.get('maxg', '?'))
+    g = int(st.get('grows', 0)); bump(D, 'growths_per_history', '0' if g == 0 else '1' if g == 1 else '2-3' if g <= 3 else '4+')
+    for tok in w[6:]:
+        if tok == '|': break
+        bump(D, 'operation', tok[0])
+        i = 1
+        while i < len(tok) and (tok[i].isdigit() or tok[i] == '_'): i += 1
+        arms = tok[i:]
+        if tok[0] in 'ijv':
+            if not arms: bump(D, 'injection', 'none')
+            else:
+                import re as _re
+                for kind_, n in _re.findall(r'([af])(\d+)', arms):
+                    bump(D, 'injection', ('allocation#' if kind_ == 'a' else 'hashcall#') + (n if int(n) < 4 else '4+'))
+                if 'a' in arms and 'f' in arms: bump(D, 'injection', 'both_armed')
+        if tok[0] == 'v':
+            bump(D, 'reserve_argument', tok[1:i] if int(tok[1:i] or 0) <= 3 else 'other')
+    if st.get('res', '-') != '-':
+        for kv in st['res'].split(','):
+            k, n = kv.split(':'); bump(D, 'result', k, int(n))
+    for ann in hd[4:]:
+        if ann != '-':
+            h, af, rr, m = ann.split('.')
+            if h == '1': bump(D, 'observed_failure', 'hash_threw_in_pvFind')
+            if af == '1': bump(D, 'observed_failure', 'item_creation_failed')
+            if rr == '1': bump(D, 'observed_failure', 'bucket_array_refused')
+            if m != '-1': bump(D, 'observed_failure', 'migration_interrupted_after_%s_items' % (m if int(m) < 3 else '3+'))
 
 
 def oracle_and_annotate(ctx, harnesses, cases, tag, stats):
@@ -204,7 +302,8 @@ def oracle_and_annotate(ctx, harnesses, cases, tag, stats):
             if len(parts) != 3:
                 bad.append((tu, c, 'unparsable harness output: ' + o[:200])); continue
             annotated[tu].append(c + ' | ' + parts[0])
-            st = dict(kv.split('=') for kv in parts[1].split())
+            st = dict(kv.split('=', 1) for kv in parts[1].split())
+            measure(stats, c, parts[0], st)
             for k in STAT_KEYS:
                 stats[k] = stats.get(k, 0) + int(st.get(k, 0))
             mg = int(st.get('maxg', 0))
@@ -242,7 +341,7 @@ def build(ctx):
     """build the four harness TUs in parallel; a TU is rebuilt only if the content hash of its inputs changed"""
     jobs = []; res = {}
     for tu in TUS:
-        flags = ['-DC11_TU=%d' % tu, '-DC11_MAPS']
+        flags = ['-DC11_TU=%d' % tu, '-g0']       # no debug info: halves the compile time
         dig = source_digest(ctx, flags)
         exe = os.path.join(ctx.build, 'h%d' % tu + ('.san' if ctx.tier == 'thorough' else ''))
         stamp = exe + '.sha256'
@@ -274,6 +373,7 @@ def replay(ctx, rp):
     stats = {}
     bad, ann = oracle_and_annotate(ctx, harnesses, [(tu, case)], 'replay', stats)
     chk = stats.pop('_chk_cases', [])
+    stats.pop('_dist', None)
     print('case:', case); print('stats:', stats)
     rc = 0
     if chk:
@@ -344,7 +444,15 @@ def run(ctx):
     stats['insertions_reporting_table_full'] = stats.get('full', 0)
     stats['migrations_interrupted_by_injected_failure'] = stats.get('migfail', 0)
     ctx.coverage['reached'] = stats
-    ctx.coverage['input_distribution'] = {TU_NAME[tu]: sum(1 for (t, c) in cases if t == tu) for tu in TUS}
+    dist = stats.pop('_dist', {})
+    dist['harness_tu'] = {TU_NAME[tu]: sum(1 for (t, c) in cases if t == tu) for tu in TUS}
+    dist['threshold_events'] = {'growths': stats.get('grows', 0), 'growths_with_existing_buckets': stats.get('growsx', 0),
+                                'op_states_one_slot_from_physically_full': stats.get('brim1', 0),
+                                'growths_inside_an_8_doubling_band': stats.get('bandsame', 0), 'growths_crossing_a_band_border': stats.get('bandcross', 0),
+                                'insertions_reporting_table_full': stats.get('full', 0),
+                                'refused_growth_insertions_through_fallback': stats.get('fb', 0),
+                                'op_states_with_ge2_generations': stats.get('g2', 0), 'op_states_with_ge3_generations': stats.get('g3', 0)}
+    ctx.coverage['input_distribution'] = dist
     for (t, c) in cases[::max(1, len(cases) // 6)][:6]:
         ctx.add_sample(c[:400])
     return ctx.finish(rule=RULE)
